@@ -1098,8 +1098,13 @@ pub fn oracle_c13(scn: &E2Scn, d: &D2, out: &RunOut, stats: &mut Stats) -> Vec<V
     // registered set of the live watcher, from its successful calls
     let mut reg: BTreeMap<u8, bool> = BTreeMap::new();
     let mut last_call: BTreeMap<u8, (&'static str, bool)> = BTreeMap::new();
+    let mut last_call_seq: BTreeMap<u8, u32> = BTreeMap::new();
+    // every configuration change wakes the worker, and every pass attempts all that is still missing (or still to
+    // be dropped): a failed attempt excuses a difference only if it was made after the last change
+    let last_change = w.changes.last().map(|c| c.1).unwrap_or(0);
     for c in w.calls.iter().filter(|c| c.2 == lw.2 && c.1 < qseq) {
         last_call.insert(c.4, (c.3, c.6));
+        last_call_seq.insert(c.4, c.1);
         if c.6 {
             if c.3 == "watch" {
                 reg.insert(c.4, c.5);
@@ -1115,7 +1120,13 @@ pub fn oracle_c13(scn: &E2Scn, d: &D2, out: &RunOut, stats: &mut Stats) -> Vec<V
             Some(r) if r == rec => {}
             Some(r) => vs.push(Violation::new("wrong-recursive-mode", ctx, format!("path p{p} configured recursive={rec} but registered recursive={r}"))),
             None => {
-                if last_call.get(p) != Some(&("watch", false)) {
+                if last_call.get(p) == Some(&("watch", false)) && last_call_seq[p] < last_change {
+                    vs.push(Violation::new(
+                        "failed-path-not-retried",
+                        "source=watch",
+                        format!("path p{p} is configured, its registration failed at #{} and it was not attempted again although the configuration changed at #{last_change}", last_call_seq[p]),
+                    ));
+                } else if last_call.get(p) != Some(&("watch", false)) {
                     vs.push(Violation::new(
                         "configured-path-not-registered",
                         ctx,
@@ -1126,7 +1137,13 @@ pub fn oracle_c13(scn: &E2Scn, d: &D2, out: &RunOut, stats: &mut Stats) -> Vec<V
         }
     }
     for p in reg.keys() {
-        if !want.contains_key(p) && last_call.get(p) != Some(&("unwatch", false)) {
+        if !want.contains_key(p) && last_call.get(p) == Some(&("unwatch", false)) && last_call_seq[p] < last_change {
+            vs.push(Violation::new(
+                "failed-path-not-retried",
+                "source=unwatch",
+                format!("path p{p} is no longer configured, its removal failed at #{} and it was not attempted again although the configuration changed at #{last_change}", last_call_seq[p]),
+            ));
+        } else if !want.contains_key(p) && last_call.get(p) != Some(&("unwatch", false)) {
             vs.push(Violation::new(
                 "deconfigured-path-still-registered",
                 ctx,
